@@ -400,6 +400,9 @@ class List(list, base.Symbolic, pg_typing.CustomTyping):
     index = key
     if -len(self) <= index < 0:
       index += len(self)
+    elif index < 0 and isinstance(value, Insertion):
+      # `list.insert` semantics: an index before the start inserts at 0.
+      index = 0
     if index >= len(self):
       # Appending MISSING_VALUE is considered no-op.
       if value == pg_typing.MISSING_VALUE:
